@@ -4,7 +4,7 @@
 Require Import LdkV.Prim.U64.
 Require Import LdkV.Model.Bech32 LdkV.Model.Bolt11 LdkV.Model.Bolt12Merkle LdkV.Model.OfferMeta LdkV.Model.Bolt12Exec.
 Require Import LdkV.Proofs.C18Bech32 LdkV.Proofs.C18Bits LdkV.Proofs.C18Bolt11 LdkV.Proofs.C18Merkle LdkV.Proofs.C18Meta.
-Require Import LdkV.Crypto.Bytes LdkV.Crypto.Sha256.
+Require Import LdkV.Crypto.Bytes LdkV.Crypto.Sha256 LdkV.Crypto.Hmac.
 Open Scope Z_scope.
 
 (** ** bech32: 8 <-> 5 bit regrouping, any length *)
@@ -166,6 +166,62 @@ Theorem C18_metadata_derived_keys_refused : forall (hmac : bytes -> bytes -> byt
     key' = key /\ List.concat recs' = List.concat recs.
 Proof. exact altered_refused_recipient_keys. Qed.
 
+(** Derived-key modes (keys from the path nonce, from 16-byte offer metadata, from 48-byte payer
+    metadata): the key record is excluded from the MAC, so acceptance means that the record's bytes
+    are the FULL encoding of the derived public key ... *)
+Theorem C18_metadata_derived_key_binds_record :
+  forall (hmac : bytes -> bytes -> bytes) (pk_of_sk : bytes -> bytes) key nonce rs,
+  List.length nonce = 16%nat ->
+  offer_verify_using_recipient_data hmac pk_of_sk key nonce rs <> VErr ->
+  find_record 22 rs =
+    Some (pk_of_sk (hmac key ((IV_OFFER_WITHOUT_METADATA ++ firstn 16 nonce
+                                 ++ List.concat (offer_records_for_metadata true rs)
+                                 ++ DERIVED_METADATA_AND_KEYS_HMAC_INPUT)
+                                ++ WITHOUT_ENCRYPTED_PAYMENT_ID_HMAC_INPUT))).
+Proof. exact derived_key_binds_offer_record. Qed.
+
+Theorem C18_metadata_derived_key_binds_record_md :
+  forall (hmac : bytes -> bytes -> bytes) (pk_of_sk : bytes -> bytes) key rs md,
+  find_record 4 rs = Some md -> List.length md = 16%nat ->
+  offer_verify_using_metadata hmac pk_of_sk key rs <> VErr ->
+  find_record 22 rs =
+    Some (pk_of_sk (hmac key ((IV_OFFER_WITH_METADATA ++ firstn 16 md
+                                 ++ List.concat (offer_records_for_metadata true rs)
+                                 ++ DERIVED_METADATA_AND_KEYS_HMAC_INPUT)
+                                ++ WITHOUT_ENCRYPTED_PAYMENT_ID_HMAC_INPUT))).
+Proof. exact derived_key_binds_offer_record_md. Qed.
+
+Theorem C18_metadata_derived_payer_key_binds_record :
+  forall (hmac : bytes -> bytes -> bytes) (pk_of_sk : bytes -> bytes) key iv rs md,
+  find_record 0 rs = Some md -> List.length md = 48%nat ->
+  invoice_verify_using_metadata hmac pk_of_sk key iv rs <> VErr ->
+  find_record 88 rs =
+    Some (pk_of_sk (hmac key ((iv ++ firstn 16 (skipn 32 md)
+                                 ++ List.concat (payer_records_for_metadata true rs)
+                                 ++ DERIVED_METADATA_AND_KEYS_HMAC_INPUT)
+                                ++ WITH_ENCRYPTED_PAYMENT_ID_HMAC_INPUT ++ firstn 32 md))).
+Proof. exact derived_key_binds_payer_record. Qed.
+
+(** ... hence a copy of an accepted stream in which only the value of the key record differs (its
+    parity byte, or any other bit) is refused. *)
+Theorem C18_metadata_issuer_id_alteration_refused :
+  forall (hmac : bytes -> bytes -> bytes) (pk_of_sk : bytes -> bytes) key nonce pre r r' post,
+  List.length nonce = 16%nat ->
+  ty_of r = 22 -> ty_of r' = 22 -> (forall x, In x pre -> ty_of x <> 22) ->
+  offer_verify_using_recipient_data hmac pk_of_sk key nonce (pre ++ r :: post) <> VErr ->
+  offer_verify_using_recipient_data hmac pk_of_sk key nonce (pre ++ r' :: post) <> VErr ->
+  record_value r = record_value r'.
+Proof. exact issuer_id_alteration_refused. Qed.
+
+Theorem C18_metadata_payer_id_alteration_refused :
+  forall (hmac : bytes -> bytes -> bytes) (pk_of_sk : bytes -> bytes) key iv pre r r' post md,
+  find_record 0 (pre ++ r :: post) = Some md -> find_record 0 (pre ++ r' :: post) = Some md -> List.length md = 48%nat ->
+  ty_of r = 88 -> ty_of r' = 88 -> (forall x, In x pre -> ty_of x <> 88) ->
+  invoice_verify_using_metadata hmac pk_of_sk key iv (pre ++ r :: post) <> VErr ->
+  invoice_verify_using_metadata hmac pk_of_sk key iv (pre ++ r' :: post) <> VErr ->
+  record_value r = record_value r'.
+Proof. exact payer_id_alteration_refused. Qed.
+
 (** ** Non-vacuity: concrete instances of the hypotheses *)
 
 (** BIP-173 vector "bc1qw508d6qejxtdg4y5r3zarvary0c5xw7kv8f3t4": valid; one symbol changed: invalid. *)
@@ -204,4 +260,20 @@ Example C18_ex_fields :
   forallb field_ok [(1, repeat 3 52); (6, [1; 28]); (13, [])] = true /\
   parse_data (ser_data 1496314658 [(1, repeat 3 52); (6, [1; 28]); (13, [])]) =
     ROk (1496314658, [(1, repeat 3 52); (6, [1; 28]); (13, [])]).
+Proof. vm_compute. split; reflexivity. Qed.
+
+(** Path-derived mode with HMAC-SHA256 and the identity as key map: a two-record stream whose
+    issuer-id record carries the derived value is accepted; the same stream with the lowest bit of
+    the first byte of that record flipped (what a 02<->03 parity change is) is refused. *)
+Definition ex_key : bytes := repeat 7 32.
+Definition ex_nonce : bytes := repeat 9 16.
+Definition ex_offer (v : bytes) : list bytes := [[10; 1; 120]; 22 :: 32 :: v].
+Definition ex_issuer : bytes :=
+  Hmac.hmac_sha256 ex_key ((IV_OFFER_WITHOUT_METADATA ++ ex_nonce
+     ++ List.concat (offer_records_for_metadata true (ex_offer [])) ++ DERIVED_METADATA_AND_KEYS_HMAC_INPUT)
+     ++ WITHOUT_ENCRYPTED_PAYMENT_ID_HMAC_INPUT).
+Example C18_ex_derived_key_binding :
+  offer_verify_using_recipient_data Hmac.hmac_sha256 (fun sk => sk) ex_key ex_nonce (ex_offer ex_issuer) = VOkDerivedKeys ex_issuer /\
+  offer_verify_using_recipient_data Hmac.hmac_sha256 (fun sk => sk) ex_key ex_nonce
+    (ex_offer (Z.lxor (hd 0 ex_issuer) 1 :: tl ex_issuer)) = VErr.
 Proof. vm_compute. split; reflexivity. Qed.
